@@ -208,8 +208,9 @@ class Renderer:
         self.defs = []      # list of (name, text)
         self.done = set()
 
-    def decl(self, t, fname):
-        """(type spelling, declarator) for a field of type t named fname."""
+    def decl(self, t, fname, inline=False):
+        """(type spelling, declarator) for a field of type t named fname; inline: the structure behind the arrays / pointers
+        is declared in place (struct { ... } *name[2];) instead of being referred to by name."""
         suffix = ""
         stars = ""
         while t["k"] == "arr":
@@ -230,6 +231,8 @@ class Renderer:
             if "selfname" in t:      # pointer to the structure being defined (forward reference to itself)
                 return t["selfname"], f"{stars}{fname}{suffix}"
             t = t["target"]
+        if inline and t["k"] in ("struct", "union"):
+            return f"{t['k']} {self.body(t)}", f"{stars}{fname}{suffix}"
         self.ensure(t)
         return type_name(t), f"{stars}{fname}{suffix}"
 
@@ -260,8 +263,9 @@ class Renderer:
                 lines.append(f"{ft['k']} {self.body(ft)};")
                 continue
             if f.get("inline"):
-                # a named member whose structure type is declared in place: struct { ... } name;
-                lines.append(f"{ft['k']} {self.body(ft)} {f['name']};")
+                # a named member whose structure type is declared in place: struct { ... } name;  (also behind arrays / pointers)
+                tn, d = self.decl(ft, f["name"], inline=True)
+                lines.append(f"{tn} {d};")
                 continue
             tn, d = self.decl(ft, f["name"])
             bits = f":{f['bits']}" if f["bits"] else ""
@@ -635,16 +639,24 @@ class Gen:
                     pass
                 arr = self.array_of(elem, refs if refs else None, last, union)
                 fields.append(field(fname, arr))
+                if elem["k"] == "struct" and cfg.get("inline", True) and rnd.random() < 0.25:
+                    fields[-1]["inline"] = True      # struct { ... } name[n];
                 cur[0] = None
                 allint = False
             elif r < w[3] and cfg["ptr"]:
                 tgt = rnd.choice([t_int("uint16"), t_int("uint8"), t_char()])
+                inl = False
+                if depth > 0 and cfg["nested"] and cfg.get("inline", True) and rnd.random() < 0.12:
+                    tgt = self.struct(depth - 1)     # pointer to a structure, declared in place half of the time: struct { ... } *name;
+                    inl = rnd.random() < 0.5
                 t = t_ptr(tgt)
                 if rnd.random() < 0.15:
                     t = t_ptr(t)           # pointer to pointer
                 if rnd.random() < 0.2:
                     t = t_arr(t, L_fixed(rnd.randrange(1, 3)))
                 fields.append(field(fname, t))
+                if inl:
+                    fields[-1]["inline"] = True
                 cur[0] = None
                 allint = False
             elif r < w[4] and cfg["void"]:
